@@ -642,6 +642,8 @@ def s_log(t):
             logs.append((t, l))
     if z3.is_app(t) and t.decl().kind() == z3.Z3_OP_UNINTERPRETED and t.decl().name() == "expf":
         C().axiom([l], l == t.arg(0))
+    if not is_num(t) and _find_ite(t) is not None:
+        C().axiom([l], z3.Implies(t == 1, l == 0))        # log of an indicator-valued argument (torch.distributions' support masks): log 1 = 0
     return l
 
 
